@@ -9,10 +9,14 @@ What is proved here (machine-checked, unbounded):
     (`sysV2`: one equation per `ResolveUnion` call): `true` ⇒ definitely holds, `false` ⇒ does not even possibly
     hold.  The proof (`Proofs.DfsGSound.evalG_root_sound`) is the *shared-visited* argument: a region that comes
     back `false` leaves a set of dead sub-problems, and a dead set contains no true member (`closure`).
-  * `shared_visited_union_sound`: the same statement read for union-only cycles, together with the exact list of
-    steps where a global visited filter is **not** sound — each is a ghost taint in the model and each has a
-    proved negation witness below (`taint_key_collision_unsound`, `taint_mark_before_condition_unsound`,
+  * `shared_visited_sound` / `shared_visited_union_sound`: a global visited filter is sound (untainted decisions,
+    every system) and — under faithful keys, no conditional drops behind a shared filter, evaluable conditions
+    (`Proofs.DfsGClean.evalG_clean`: no outcome is ever tainted) — sound *and complete*.  The three hypotheses are
+    exactly the steps where the real filter is **not** sound; each is a ghost taint in the model and has a proved
+    negation witness below (`taint_key_collision_unsound`, `taint_mark_before_condition_unsound`,
     `taint_swallowed_error_unsound`); on the real code they are the candidate findings V2-A, V2-B, V2-E.
+  * `prune_weight_consistent` / `prune_wildcard_consistent`: the pruning tests of `ResolveCheck` agree with what
+    `FlattenNode` would leave, under the local well-formedness (`wfWeights`, `wfWildcards`) of the dumped graph.
   * `v2_reducers_spec`: the three receive loops as functions of the arrival sequence — union order independent,
     intersection "first error or false wins", exclusion "base error wins" (with the order-dependence witnesses
     that are the documented breaking changes).
@@ -31,6 +35,8 @@ tuple-validity difference (V2-D, V1-G) and is checked by the correspondence agai
 import OpenFGAVerif.Model.CheckV2
 import OpenFGAVerif.Model.V2Breaking
 import OpenFGAVerif.Proofs.DfsGSound
+import OpenFGAVerif.Proofs.DfsGClean
+import OpenFGAVerif.Model.CheckV1
 import OpenFGAVerif.Gen.CheckV2
 
 namespace OpenFGAVerif.C03
@@ -94,12 +100,9 @@ theorem c03_decisions_agree (w : World) (I : Interp VNode) (hc : Coherent (sysV2
 
 /-! ## the shared visited filter: where it is sound, and exactly where it is not -/
 
-/-- **A global visited filter is sound and complete for union-only cycles**: in a system whose rules are unions of
-direct tuples and filtered iterators (no intersection, no exclusion: what the graph builder admits inside a
-cycle), whichever branch claimed a userset reported its truth to the same union, so every *untainted* decision is
-the reachability of a `true` leaf.  (Instance of `evalG_root_sound`; the hypotheses that make taint impossible
-are those violated by the three witnesses below.) -/
-theorem shared_visited_union_sound {N : Type} [DecidableEq N] (sys : Sys N) (I : Interp N)
+/-- **A global visited filter is sound for every system** (untainted decisions): whichever branch claimed a
+userset reported its truth to the same union.  Instance of `evalG_root_sound` at a sub-problem. -/
+theorem shared_visited_sound {N : Type} [DecidableEq N] (sys : Sys N) (I : Interp N)
     (rule : Bool → N → VExpr N) (seed : N → Option String) (policy : Nat → Nat → Bool)
     (hrule : ∀ b n, toExpr (rule b n) = sys.rule n) (hc : Coherent sys I) (fuel : Nat) (root : N) :
     (VOut.ok true false ∈ (evalG rule seed policy fuel none (.sub false root)).1 → D sys I [] root) ∧
@@ -112,6 +115,31 @@ theorem shared_visited_union_sound {N : Type} [DecidableEq N] (sys : Sys N) (I :
     cases this with | node hn => exact hn
   · intro h hp
     apply h2 h
+    simp only [toExpr]
+    exact .node hp
+
+/-- **`shared_visited_union_sound`: sound and complete under the clean conditions.**  If (1) the key handed to the
+visited filter identifies the dispatched sub-problem (`keyOf` injective, never empty, `item.key = keyOf child`, the
+seed is the key of the creating sub-problem), (2) no tuple that reaches a *shared* filter is dropped by the condition
+filter afterwards and (3) every condition can be evaluated, then **every** decision — not only the untainted ones —
+of the evaluation is the least-fixpoint semantics, for every schedule.  These are exactly the hypotheses the real
+engine violates in findings V2-A (tuple-to-userset keys), V2-B (conditions on cycle edges), V2-E (swallowed errors);
+the witnesses below show that each of them is necessary. -/
+theorem shared_visited_union_sound {N : Type} [DecidableEq N] (keyOf : N → String) (sys : Sys N) (I : Interp N)
+    (rule : Bool → N → VExpr N) (seed : N → Option String) (policy : Nat → Nat → Bool)
+    (hk : KeyOK keyOf) (hclean : ∀ b n, CleanE keyOf (rule b n)) (hseed : ∀ n k, seed n = some k → k = keyOf n)
+    (hrule : ∀ b n, toExpr (rule b n) = sys.rule n) (hc : Coherent sys I) (fuel : Nat) (root : N) (a t : Bool)
+    (h : VOut.ok a t ∈ (evalG rule seed policy fuel none (.sub false root)).1) :
+    (a = true → D sys I [] root) ∧ (a = false → ¬ P sys I [] root) := by
+  obtain ⟨h1, h2⟩ := evalG_clean_sound keyOf rule seed policy sys I hk hclean hseed hrule hc fuel (.sub false root)
+    (.sub false root) a t h
+  constructor
+  · intro ha
+    have := h1 ha
+    simp only [toExpr] at this
+    cases this with | node hn => exact hn
+  · intro ha hp
+    apply h2 ha
     simp only [toExpr]
     exact .node hp
 
@@ -220,6 +248,91 @@ theorem v2_breaking_changes_are_error_races :
     (exclV2 true (.err .cond) (some (.ok true false)) = .err .cond ∧
      exclV2 false (.err .cond) (some (.ok true false)) = .ok false false) :=
   ⟨interV2_order_dependent, exclV2_order_dependent⟩
+
+/-! ## pruning by weights and wildcard sets -/
+
+/-- skipping every edge leaves the accumulator of `FlattenNode` unchanged -/
+theorem flatten_fold_skip (g : Graph) (ut : String) (wild recPath : Bool) (f : Nat) (es : List GEdge)
+    (h : ∀ e ∈ es, (e.weight.isNone || (wild && !e.wildcards.contains ut)) = true) (acc : List GEdge) :
+    es.foldl (fun (acc : Option (List GEdge)) e =>
+      match acc with
+      | none => none
+      | some l =>
+        if e.weight.isNone || (wild && !e.wildcards.contains ut) then some l
+        else if canFlatten g e then
+          match flatten g ut wild recPath f e.dst with
+          | none => none
+          | some r => some (l ++ r)
+        else if !recPath || e.recRel = "" then some (l ++ [e])
+        else some l) (some acc) = some acc := by
+  induction es generalizing acc with
+  | nil => rfl
+  | cons e es ih =>
+    simp only [List.foldl_cons]
+    rw [if_pos (h e (by simp))]
+    exact ih (fun x hx => h x (by simp [hx])) acc
+
+/-- **Pruning by weight is consistent** (under the local weight consistency of the dumped graph, which the
+driver evaluates on every case): when `ResolveCheck` answers `false` because the node of the requested relation
+has no weight for the user type, `ResolveUnion` would have found no edge to follow either. -/
+theorem prune_weight_consistent (g : Graph) (ut : String) (wild recPath : Bool) (hwf : wfWeights g ut = true)
+    (name : String) (n : GNode) (hn : g.node? name = some n) (hu : n.unionLike = true) (hne : n.name ≠ ut)
+    (hw : n.weight = none) (f : Nat) :
+    flatten g ut wild recPath (f + 1) name = some [] := by
+  have hmem : n ∈ g.nodes := List.mem_of_find?_eq_some hn
+  have hname : n.name = name := by
+    have := List.find?_some hn
+    simpa using this
+  unfold wfWeights at hwf
+  simp only [Bool.and_eq_true, List.all_eq_true] at hwf
+  have hcl := hwf.1 n hmem
+  have ht : ¬ (n.ntype = 0 ∨ n.ntype = 3) := by
+    unfold GNode.unionLike at hu
+    intro h
+    rcases h with h | h <;> simp [h] at hu
+  rw [hname] at hcl
+  unfold flatten
+  by_cases hes : (g.out name).isEmpty = true
+  · simp [ht, hes] at hcl
+  · simp only [hes]
+    have hall : ∀ e ∈ g.out name, e.weight.isNone = true := by
+      simp [ht, hes, hu, hw] at hcl
+      have hcl' := hcl.resolve_left (fun h => hne (by rw [hname]; exact h))
+      intro e he
+      have := hcl' e he
+      cases hwe : e.weight with
+      | none => rfl
+      | some v => rw [hwe] at this; simp at this
+    exact flatten_fold_skip g ut wild recPath f (g.out name) (fun e he => by simp [hall e he]) []
+
+/-- **Pruning by wildcard set is consistent**: when a typed-wildcard request is answered `false` because the
+node has no path to the wildcard of the type, no edge of the node has one. -/
+theorem prune_wildcard_consistent (g : Graph) (ut : String) (recPath : Bool) (hwf : wfWildcards g = true)
+    (name : String) (n : GNode) (hn : g.node? name = some n) (hne : (g.out name).isEmpty = false)
+    (hw : n.wildcards.contains ut = false) (f : Nat) :
+    flatten g ut true recPath (f + 1) name = some [] := by
+  unfold wfWildcards at hwf
+  simp only [List.all_eq_true] at hwf
+  unfold flatten
+  simp only [hne]
+  apply flatten_fold_skip g ut true recPath f (g.out name) _ []
+  intro e he
+  have hmem : e ∈ g.edges := (List.mem_filter.mp he).1
+  have hsrc : e.src = name := by simpa using (List.mem_filter.mp he).2
+  have hcl := hwf e hmem
+  rw [hsrc, hn] at hcl
+  cases hd : g.node? e.dst with
+  | none => rw [hd] at hcl; simp at hcl
+  | some t =>
+    rw [hd] at hcl
+    simp only [Bool.and_eq_true, List.all_eq_true] at hcl
+    have hsub := hcl.1
+    cases hc : e.wildcards.contains ut with
+    | false => simp
+    | true =>
+      have := hsub ut (by simpa using hc)
+      rw [hw] at this
+      cases this
 
 /-! ## request-shape errors -/
 
@@ -338,24 +451,33 @@ theorem c03_shapes_at_exclusion (w : World) (obj rel : String) (f : Nat) (e : GE
 /-! ## the breaking-change detector -/
 
 /-- **`C03_Detector`** (stated in full, *not* proved — refuted by the correspondence on the unchanged code).
-For a userset or wildcard subject, whenever the default engine and the weighted-graph engine both decide and
+`isGraphOf m ut g`: `g` is the weighted graph of model `m` with the weights for user type `ut` (the contract of the
+trusted graph library, not formalised).  For a userset or wildcard subject and the same model, tuples and request,
+whenever the default engine (`CheckV1.check`, any schedule) and the weighted-graph engine (`checkSet`) both decide and
 disagree, the server reports a reason: the weighted-graph answer is `false`, the subject is a userset and
-`CheckReason` is non-empty (the only place where the success path logs), request-shape errors being covered by
-`CheckReasonFromV2Error` on the fallback path.  `v1` is the decision of the default engine for the same model,
-tuples and request.
+`CheckReason` is non-empty (the only place where the success path logs; the request-shape errors are reported through
+`CheckReasonFromV2Error` on the fallback path and are not decisions).
 
-Counter-example found by the correspondence (candidate finding V2-C, reproduced on the real code):
-`group.member: [user, team#member] or owner`, `folder.viewer: [user, group#member] or editor`, tuple
-`folder:a#viewer@group:a#member`, request `Check(folder:a#viewer@group:a#owner)`: the default engine answers `true`
-(every owner of group:a is a member), the weighted-graph engine `false`, `CheckReason = ""` — `usersetAliasesTargetRelation`
-only recognises `T#R'` whose rewrite is a *pure* computed userset (`ResolveComputedRelation`), not a union containing one.
-What is missing for a proof of a repaired detector: a model of the default engine's userset-subject semantics
-(the self-defining base case) against `sysV2` for userset subjects, and a shape analysis of where the two differ. -/
-def C03_Detector : Prop :=
-  ∀ (w : World) (v1 : Bool) (a : Bool) (t : Bool),
-    (isUserset w.req.user = true ∨ isTypedWildcard w.req.user = true) →
-    VOut.ok a t ∈ checkSet w → a ≠ v1 →
-    a = false ∧ isUserset w.req.user = true ∧ V2Breaking.checkReason w.model w.req ≠ ""
+Counter-examples found by the correspondence (candidate finding V2-C, reproduced on the real code, crafted case of
+harness/c03): `group.member: [user, team#member] or owner`, `folder.viewer: [user, group#member] or editor`, tuple
+`folder:a#viewer@group:a#member`, request `Check(folder:a#viewer@group:a#owner)`: default engine `true` (every owner of
+group:a is a member), weighted graph `false`, `CheckReason = ""` — `usersetAliasesTargetRelation` only recognises a
+directly related `T#R'` whose rewrite is a *pure* computed userset chain down to the subject's relation, and only on
+the target relation itself.  Further shapes of the same family found by the generator: an alias reached through a
+computed sibling of the target (`viewer: [user] or member`, `member: [user, group#admin]`, `admin: owner`,
+`owner: member`), and a computed chain on the subject's own object (`Check(group:b#admin@group:b#member)` with
+`admin: owner`, `owner: member`: `rewriteContainsComputedUserset` looks one step deep).
+What is missing for a proof of a repaired detector: a Lean model of the default engine's userset-subject semantics
+(the self-defining base case of `ResolveCheck`) against `sysV2` for userset subjects, and a shape analysis of where
+the two can differ. -/
+def C03_Detector (isGraphOf : Model → String → Graph → Prop) : Prop :=
+  ∀ (w1 : CheckV1.World) (w2 : World) (depth fuel : Nat) (sc : Dfs.Sched) (a1 c1 t1 a2 t2 : Bool),
+    w1.model = w2.model → w1.stored = w2.stored → w1.req.obj = w2.req.obj → w1.req.rel = w2.req.rel →
+    w1.req.user = w2.req.user → w1.req.ctx = w2.req.ctx → w1.ctxTuples.Perm w2.ctxTuples →
+    isGraphOf w2.model w2.ut w2.graph →
+    (isUserset w2.req.user = true ∨ isTypedWildcard w2.req.user = true) →
+    CheckV1.check w1 depth sc fuel = .ok a1 c1 t1 → VOut.ok a2 t2 ∈ checkSet w2 → a1 ≠ a2 →
+    a2 = false ∧ isUserset w2.req.user = true ∧ V2Breaking.checkReason w2.model w2.req ≠ ""
 
 /-- the precedence of `CheckReason` -/
 theorem checkReason_self (m : Model) (rq : Req) (h : rq.user = rq.obj ++ "#" ++ rq.rel) :
@@ -533,5 +655,25 @@ example : (evalG (ruleC .tt) (fun n => if n = 0 then some "k0" else none) (lookA
 
 example : (evalG (ruleC .ff) (fun n => if n = 0 then some "k0" else none) (lookAhead 2) 8 none (.sub false 0)).1 = [.ok false false] := by
   decide
+
+/-- the hypotheses of `shared_visited_union_sound` are satisfiable: the cyclic system above with the keys
+`k0 k1 k2` of its three sub-problems -/
+def keyC (n : Nat) : String := if n = 0 then "k0" else if n = 1 then "k1" else if n = 2 then "k2" else String.mk (List.replicate (n + 1) 'z')
+
+example (leaf : Leaf) (hl : leaf ≠ .errSw) (b : Bool) (n : Nat) : CleanE keyC (ruleC leaf b n) := by
+  unfold ruleC
+  split
+  · refine .iter _ _ ?_
+    intro it hit
+    simp at hit; subst hit
+    exact ⟨Or.inl rfl, fun _ => ⟨rfl, 1, rfl, by simp [keyC]⟩⟩
+  · split
+    · refine .iter _ _ ?_
+      intro it hit
+      simp at hit
+      rcases hit with rfl | rfl
+      · exact ⟨Or.inl rfl, fun _ => ⟨rfl, 0, rfl, by simp [keyC]⟩⟩
+      · exact ⟨Or.inl rfl, fun _ => ⟨rfl, 2, rfl, by simp [keyC]⟩⟩
+    · exact .lit _ hl
 
 end OpenFGAVerif.C03
